@@ -29,7 +29,8 @@ ASSUMPTIONS = [
 ]
 
 INJECT = ["none", "none", "raise_value", "raise_runtime", "raise_keyboard", "raise_abort", "raise_value_empty", "raise_keyboard_empty",
-          "raise_assert_empty", "unknown_param", "probe_no_key", "nonfinite_param", "odd_param", "odd_param"]
+          "raise_assert_empty", "unknown_param", "probe_no_key", "nonfinite_param", "odd_param", "odd_param",
+          "init_keyboard", "init_abort", "init_value"]
 NONFINITE = [float("inf"), float("-inf"), float("nan")]
 DETAILS = ["hash", "repr", "context", "all", "hash,repr"]
 
@@ -72,6 +73,17 @@ def materialise(case: Dict[str, Any]) -> Dict[str, Any]:
                 (c["nodes"][at].get("params") or {}).pop(pname, None)
                 c["ctx"][pname] = value
             applied, c["fault_index"] = inj, at
+    elif inj.startswith("init_"):
+        # the constructor of a node's processor aborts (Ctrl-C class or ordinary exception) while the nodes are instantiated
+        m = M.run(c)
+        spots = [e["index"] for e in m["log"] if M.kind_of(e["in"]) == "Float"]
+        if m["ok"] and M.kind_of(m["data"]) == "Float":
+            spots.append(len(c["nodes"]))
+        if spots:
+            at = spots[pos % len(spots)]
+            c["nodes"].insert(at, {"p": "VInitFaultOp"})
+            c["init_fault"] = inj.split("_", 1)[1]
+            applied, c["fault_index"] = inj, at
     elif inj == "odd_param":
         # a legal but unusual Python value (mixed-key dict, set, bytes, numpy array, lone surrogate ...) among the traced parameters
         name = observe.ODD_NAMES[pos % len(observe.ODD_NAMES)]
@@ -113,6 +125,8 @@ def check_case(case: Dict[str, Any], col: Collector, workroot: str = ".") -> Non
     applied = c["applied"]
     detail, mode = case.get("detail", "hash"), case.get("mode", "file")
     run_case = {k: c[k] for k in ("nodes", "ctx", "data")}
+    if c.get("init_fault"):
+        run_case["init_fault"] = c["init_fault"]
     for p in gen.PATHS:
         if os.path.exists(p):
             os.remove(p)
@@ -151,7 +165,7 @@ def _judge(case, c, applied, detail, mode, ref, r, col, components) -> None:
     if ref["ok"] != r["ok"]:
         bad("outcome_differs_from_untraced", observed=r.get("exc_type"), expected=ref.get("exc_type"))
     elif not ref["ok"]:
-        if applied.startswith("raise_") and type(ref["exc"]).__name__ in M.EXC_NAMES.values():
+        if (applied.startswith("raise_") or applied.startswith("init_")) and type(ref["exc"]).__name__ in M.EXC_NAMES.values():
             kind = applied.split("_", 1)[1]
             if r["exc"] is not components.EXC_OBJECTS[kind]:
                 bad("exception_not_the_original_object", observed=repr(r["exc"])[:120], expected=repr(components.EXC_OBJECTS[kind]))
@@ -279,7 +293,7 @@ def valid(case: Any) -> bool:
 
 def label_requirements(tier: str) -> Dict[str, Any]:
     req: Dict[str, Any] = {"mode:file": 0.3, "mode:dir": 0.3, "ok": 0.15, "fails": 0.3}
-    for f in ("raise_value", "raise_keyboard", "raise_abort", "raise_value_empty", "raise_keyboard_empty", "raise_assert_empty", "nonfinite_param", "odd_param",
+    for f in ("raise_value", "raise_keyboard", "raise_abort", "raise_value_empty", "raise_keyboard_empty", "raise_assert_empty", "nonfinite_param", "odd_param", "init_keyboard", "init_abort", "init_value",
               "unknown_param", "probe_no_key", "unresolved_parameter", "type_gate", "processor_exception"):
         req["fault:" + f] = 0.015 if f != "nonfinite_param" else 0.008
         for d in ("hash", "repr", "context", "all"):
